@@ -693,6 +693,19 @@ V("c16-twin-negative-refusal-in-helper", "C16", "-", "dask_array/_core_utils.py"
   ("dask_array/_core_utils.py", "def normalize_chunks(", "def _refuse_negative_sizes(chunks):\n" + _C16_NEG + "\n\ndef normalize_chunks("),
 ])
 
+_C16_LB = '    largest_block = math.prod(cs if isinstance(cs, Number) else max(cs) for cs in chunks if cs != "auto")\n'
+V("c16-budget-first-block", "C16", "R16.4", "dask_array/_core_utils.py", _C16_LB, _C16_LB.replace("max(cs)", "cs[0]"), expect="auto_chunks")
+V("c16-budget-min-block", "C16", "R16.4", "dask_array/_core_utils.py", _C16_LB, _C16_LB.replace("max(cs)", "min(cs)"), expect="auto_chunks")
+V("c16-budget-last-block", "C16", "R16.4", "dask_array/_core_utils.py", _C16_LB, _C16_LB.replace("max(cs)", "cs[-1]"), expect="auto_chunks")
+V("c16-twin-budget-sorted-last", "C16", "-", "dask_array/_core_utils.py", _C16_LB, _C16_LB.replace("max(cs)", "sorted(cs)[-1]"), twin=True)
+V("c16-twin-budget-np-max", "C16", "-", "dask_array/_core_utils.py", _C16_LB, _C16_LB.replace("max(cs)", "np.max(cs)"), twin=True)
+V("c16-twin-budget-for-loop", "C16", "-", "dask_array/_core_utils.py", _C16_LB,
+  "    largest_block = 1\n    for cs in chunks:\n        if cs == \"auto\":\n            continue\n        largest_block *= cs if isinstance(cs, Number) else max(cs)\n", twin=True)
+V("c16-twin-budget-helper", "C16", "-", "dask_array/_core_utils.py", None, None, twin=True, edits=[
+  ("dask_array/_core_utils.py", _C16_LB, "    largest_block = math.prod(_largest(cs) for cs in chunks if cs != \"auto\")\n"),
+  ("dask_array/_core_utils.py", "def auto_chunks(", "def _largest(cs):\n    return cs if isinstance(cs, Number) else max(cs)\n\n\ndef auto_chunks("),
+])
+
 # ---------------------------------------------------------------------------- C24
 V("c24-rechunk-pushdown-drops-getitem", "C24", "R24.1", "dask_array/io/_from_array.py",
   "            chunks,\n            lock=self.operand(\"lock\"),\n            getitem=self.operand(\"getitem\"),\n            inline_array=self.inline_array,",
